@@ -409,3 +409,13 @@ def VALUE_NEG(K=0, horizon=6, ops=None):
     if ops is None:
         ops = [('fail', 'P2', 0), ('wo', 'P2', 'x'), ('wo', 'P2', 'f')]
     return spec(f'VALUENEG[K{K}]', devs, horizon, ops, K)
+
+
+def with_splits(sp, n=1):
+    '''Same scenario, but the run may be split into consecutive simulate() calls at n points (every quiescent point
+    is offered: strictly between two instants and as the last thing of an instant), with operations issued
+    between the runs as plain calls.'''
+    s = dict(sp)
+    s['splits'] = n
+    s['name'] = sp['name'] + f'+split{n}'
+    return s
